@@ -1,0 +1,31 @@
+//go:build verif
+
+// Read-only observation hooks for the verification harness in /verif. Only
+// compiled with `-tags verif`.
+
+package tracker
+
+// VerifInflight is one entry of the inflights window.
+type VerifInflight struct {
+	Index uint64
+	Bytes uint64
+}
+
+// VerifDump returns the inflight messages in order, oldest first.
+func (in *Inflights) VerifDump() []VerifInflight {
+	if in == nil {
+		return nil
+	}
+	out := make([]VerifInflight, 0, in.count)
+	idx := in.start
+	for i := 0; i < in.count; i++ {
+		out = append(out, VerifInflight{Index: in.buffer[idx].index, Bytes: in.buffer[idx].bytes})
+		if idx++; idx >= in.size {
+			idx -= in.size
+		}
+	}
+	return out
+}
+
+// VerifSentCommit returns the highest commit index sent to the follower.
+func (pr *Progress) VerifSentCommit() uint64 { return pr.sentCommit }
